@@ -372,3 +372,38 @@ def thread_cpu_seconds(t):
         return (int(fields[11]) + int(fields[12])) / os.sysconf('SC_CLK_TCK')
     except (OSError, IndexError, ValueError):
         return None
+
+
+class SteppingClock(object):
+    """Fault injection on the *wall* clock: while active, time.time() returns
+    the real value plus an offset that the workload steps (an NTP correction,
+    a resume from suspend).  Monotonic clocks are left alone - they are what
+    durations are to be measured with.  The harness itself only uses
+    time.monotonic()."""
+    _lock = threading.Lock()
+
+    def __init__(self):
+        self.offset = 0.0
+        self.steps = []
+        self.reads = 0
+
+    def __enter__(self):
+        import time as _time
+        SteppingClock._lock.acquire()
+        self._time = _time
+        self._real = _time.time
+
+        def fake():
+            self.reads += 1
+            return self._real() + self.offset
+        _time.time = fake
+        return self
+
+    def step(self, seconds):
+        self.offset += seconds
+        self.steps.append(seconds)
+
+    def __exit__(self, *exc):
+        self._time.time = self._real
+        SteppingClock._lock.release()
+        return False
